@@ -109,6 +109,17 @@ func C09(c *core.Ctx) {
 					j.Dirs = append(j.Dirs, kj.Dir{K: "assert", Z: hi + 1, Multi: rng.Intn(2) == 0, Bal: []kj.Bal{{A: a, C: "XYZ", Q: 0}, {A: a, C: "XAU", Q: 0}}[:1+rng.Intn(2)]})
 				}
 			}
+			// a corrected quote: two prices for one pair on one day, the later (lower or higher) one counts
+			if valued[i] && rng.Intn(2) == 0 {
+				for k := range j.Dirs {
+					if j.Dirs[k].K == "price" && j.Dirs[k].Z > 18262 {
+						dup := j.Dirs[k]
+						dup.P = []int{5000, 20000, 40000, 12500, 8000}[rng.Intn(5)]
+						j.Dirs = append(j.Dirs, dup)
+						break
+					}
+				}
+			}
 			for k := range j.Dirs {
 				if j.Dirs[k].K == "trx" && rng.Intn(4) == 0 {
 					j.Dirs[k].Perf = [][]string{{}, {"CHF"}, {"USD", "CHF"}}[rng.Intn(3)]
